@@ -21,7 +21,27 @@ def entry_width(ctx, F):
     R = "R-TABLE"
     b = F.fn("XrefEntry::write_xref_entry")
     sites = lib.format_sites(b)
-    ctx.floor(R, "xref entry format sites", len(sites), 4)
+    # every variant of XrefEntry must reach a format site (arms may be merged with an or-pattern, so the number of sites is
+    # not fixed; the number of variants is)
+    adt = F.adts.get("xref::XrefEntry")
+    nvar = len(adt["variants"]) if adt else 0
+    covered = set()
+    for bi in range(b.n):
+        t = b.term(bi)
+        if t["k"] != "switch" or t["dty"] == "bool":
+            continue
+        p = op_place(t["d"])
+        d = b.single_def(p["l"]) if p is not None and not p["p"] else None
+        if not (d and d[2] == "rv" and d[3]["k"] == "discr"):
+            continue
+        listed = {int(v): x for v, x in t["tg"]}
+        for vi in range(nvar):
+            tgt = listed.get(vi, t["else"])
+            if any(s_["bb"] == tgt or b.can_reach(tgt, s_["bb"]) for s_ in sites):
+                covered.add(vi)
+    ctx.floor(R, "XrefEntry variants that reach a format site", len(covered), 4)
+    ctx.ob(R, "xref-entry-every-variant", nvar == 4 and len(covered) == nvar, "each of the %d XrefEntry variants is written by a format site" % nvar, b.where(),
+           what="an XrefEntry variant is written without a 20-byte entry line (variants covered: %s of %d)" % (sorted(covered), nvar))
     for s in sites:
         lo = hi = 0
         ok = True
